@@ -12,6 +12,8 @@ import (
 	"reflect"
 	"sort"
 	"strconv"
+	"strings"
+	"sync"
 	"time"
 	"unsafe"
 
@@ -64,12 +66,63 @@ func deepHash(h hash.Hash64, v reflect.Value, depth int, seen map[uintptr]bool) 
 	if depth > 12 {
 		return
 	}
-	// The internals of the standard synchronisation types (sync.Pool, sync.Once,
-	// sync.Mutex, atomics) change with garbage collections and with first use; they
-	// are runtime bookkeeping, not library tables. What such an object GUARDS is
-	// hashed through the other variables; misuse shows in results, in returned
-	// values that change later, in the footprint and in the race pass.
-	if pp := v.Type().PkgPath(); pp == "sync" || pp == "sync/atomic" {
+	// The internals of sync.Pool and of the lock types change with garbage collections and with
+	// use; they are runtime bookkeeping, not library tables. What such an object GUARDS is hashed
+	// through the other variables; misuse shows in results, in returned values that change later,
+	// in the footprint and in the race pass.
+	if pp := v.Type().PkgPath(); pp == "sync/atomic" && v.Kind() == reflect.Struct {
+		// atomics are plain cells: what they HOLD is state like any other (a memo in an atomic.Value, a
+		// published table in an atomic.Pointer); their representation does not change with collections
+		if name := v.Type().Name(); strings.HasPrefix(name, "Pointer[") && v.NumField() == 3 && v.Field(0).Type().Kind() == reflect.Array {
+			// atomic.Pointer[T]: struct{ _ [0]*T; _ noCopy; v unsafe.Pointer }
+			t := v.Field(0).Type().Elem().Elem()
+			ptr := v.Field(2).UnsafePointer()
+			if ptr == nil {
+				wr(h, 0)
+				return
+			}
+			if seen[uintptr(ptr)] {
+				wr(h, 0xc1c1e)
+				return
+			}
+			seen[uintptr(ptr)] = true
+			deepHash(h, reflect.NewAt(t, ptr).Elem(), depth+1, seen)
+			delete(seen, uintptr(ptr))
+			return
+		}
+		for i := 0; i < v.NumField(); i++ {
+			deepHash(h, v.Field(i), depth+1, seen)
+		}
+		return
+	} else if pp == "sync" {
+		switch v.Type().Name() {
+		case "Once":
+			// done or not done: stable after the warm-up
+			if f := v.FieldByName("done"); f.IsValid() {
+				deepHash(h, f, depth+1, seen)
+				return
+			}
+		case "Map":
+			// contents through Range where the value is reachable through exported names
+			if v.CanAddr() && v.Addr().CanInterface() {
+				if m, ok := v.Addr().Interface().(*sync.Map); ok {
+					var ks []uint64
+					m.Range(func(k, val interface{}) bool {
+						kh := fnv.New64a()
+						deepHash(kh, reflect.ValueOf(k), depth+1, seen)
+						deepHash(kh, reflect.ValueOf(val), depth+1, seen)
+						ks = append(ks, kh.Sum64())
+						return true
+					})
+					sort.Slice(ks, func(i, j int) bool { return ks[i] < ks[j] })
+					for _, k := range ks {
+						wr(h, k)
+					}
+					return
+				}
+			}
+		}
+		// sync.Pool, mutexes, wait groups: runtime bookkeeping that changes with garbage collections
 		wr(h, 0x5c)
 		return
 	}
